@@ -57,16 +57,7 @@ func rulesC20(c *Ctx) {
 	st := c.P.LookupType(pM, "MemoryEventStore")
 	dlT := c.P.LookupType(pM, "dataList")
 	c.Need(st != nil && dlT != nil, "MemoryEventStore / dataList")
-	storeF, nBytes, maxBytes := c.Field(pM, "MemoryEventStore", "store"), c.Field(pM, "MemoryEventStore", "nBytes"), c.Field(pM, "MemoryEventStore", "maxBytes")
-	sizeF, firstF, dataF := c.Field(pM, "dataList", "size"), c.Field(pM, "dataList", "first"), c.Field(pM, "dataList", "data")
-	appendData := c.FnObj(pM, "dataList", "appendData")
-	removeFirst := c.FnObj(pM, "dataList", "removeFirst")
-	purge := c.FnObj(pM, "MemoryEventStore", "purge")
-	isDLMethod := func(f *Func) bool {
-		r := f.Root()
-		return r.Recv() != nil && namedOf(r.Recv().Type()) == dlT
-	}
-
+	// (first, because it needs nothing but the two types: it still answers when the table was restructured)
 	c.Rule("R-C20-8", "a stream's list is found through the two-level table keyed by session id and stream id, and through nothing else: the store keeps no other reference to a list (a remembered 'last stream' survives SessionClosed, or is hit by another session's stream of the same id — every session's standalone stream has the id \"\")", func() {
 		mes := c.P.LookupType(pM, "MemoryEventStore")
 		dlT := c.P.LookupType(pM, "dataList")
@@ -117,14 +108,42 @@ func rulesC20(c *Ctx) {
 			}
 			n++
 			c.sites++
+			// a second reference (a cache of the last lookup) is tolerable only if closing a session drops it
+			droppedOnClose := false
+			if scf := c.P.FuncOf(c.P.LookupFuncObj(pM, "MemoryEventStore", "SessionClosed")); scf != nil && k < 2 {
+				for _, f := range c.pkgClosure(scf) {
+					for _, w := range Writes(f.Body, true) {
+						if len(f.FieldRefs(w.LHS, fld, true)) > 0 {
+							droppedOnClose = true
+						}
+					}
+					for _, call := range f.AllCalls(f.Body, true) {
+						if bn := f.BuiltinName(call); (bn == "delete" || bn == "clear") && len(call.Args) > 0 && len(f.FieldRefs(call.Args[0], fld, true)) > 0 {
+							droppedOnClose = true
+						}
+					}
+				}
+			}
 			if k >= 2 {
 				c.add(c.rule, "list-reference:"+fld.Name(), c.P.Rel(fld.Pos()), vOK, "the session → stream → list table")
+			} else if droppedOnClose {
+				c.add(c.rule, "list-reference:"+fld.Name(), c.P.Rel(fld.Pos()), vOK, "a second reference to a list that SessionClosed resets")
 			} else {
 				c.add(c.rule, "list-reference:"+fld.Name(), c.P.Rel(fld.Pos()), vViolation, "MemoryEventStore."+fld.Name()+" holds a list outside the session → stream table: it is not removed by SessionClosed and is not keyed by the session")
 			}
 		}
 		c.Pin("list-bearing fields of MemoryEventStore", n, 1)
 	})
+
+	storeF, nBytes, maxBytes := c.Field(pM, "MemoryEventStore", "store"), c.Field(pM, "MemoryEventStore", "nBytes"), c.Field(pM, "MemoryEventStore", "maxBytes")
+	sizeF, firstF, dataF := c.Field(pM, "dataList", "size"), c.Field(pM, "dataList", "first"), c.Field(pM, "dataList", "data")
+	appendData := c.FnObj(pM, "dataList", "appendData")
+	removeFirst := c.FnObj(pM, "dataList", "removeFirst")
+	purge := c.FnObj(pM, "MemoryEventStore", "purge")
+	isDLMethod := func(f *Func) bool {
+		r := f.Root()
+		return r.Recv() != nil && namedOf(r.Recv().Type()) == dlT
+	}
 
 	c.Rule("R-C20-1", "all store state, including every per-stream list reached through it, is accessed with the store mutex held", func() {
 		n := c.guardedFields("store-state", []*types.Var{storeF, nBytes, maxBytes}, lkStore, func(f *Func, sel *ast.SelectorExpr) string {
@@ -367,6 +386,11 @@ func rulesC20(c *Ctx) {
 			}
 		})
 		c.Check(okSub, "SessionClosed:releases-all-bytes", sc, nil, "closing a session subtracts the size of every list of that session from nBytes, then deletes the session")
+		// ... on every path: a session that retains no byte (everything evicted, or only opened) is forgotten like any other
+		if delV >= 0 {
+			okAll, p := sg.MustPassIncl(sg.Entry, sg.Exits, func(v int) bool { return v == delV })
+			c.Check(okAll, "SessionClosed:always-forgets-the-session", sc, sg.Node(delV), "every path through SessionClosed deletes the session's entry (an early return for \"nothing to free\" keeps its streams and ids alive) %s", sg.PathString(p))
+		}
 	})
 
 	c.Rule("R-C20-3", "After returns exactly the retained suffix after the index, or the purge error; never a partial answer; payloads are copied under the lock and yielded outside it", func() {
